@@ -74,6 +74,14 @@ func (r Res) String() string {
 	return fmt.Sprintf("out=%q echo=%q errs=%d panicked=%v cont=%v", r.Out, r.Echo, len(r.Errs), r.Panicked, r.Cont)
 }
 
+// RunWith feeds one input with its own evaluation deadline.
+func (s *S) RunWith(src string, maxDuration time.Duration) Res {
+	saved := s.Opts.MaxDuration
+	s.Opts.MaxDuration = maxDuration
+	defer func() { s.Opts.MaxDuration = saved }()
+	return s.Run(src)
+}
+
 // Run feeds one input through repl.EvalOne.
 func (s *S) Run(src string) Res {
 	before := s.Out.Len()
